@@ -124,6 +124,8 @@ pub fn stall_helper(h: Handle, budgets: Vec<usize>, stop: Arc<AtomicBool>, mut r
 }
 
 pub struct RunOut {
+    /// the server closed the connection in the middle of the run
+    pub server_closed: bool,
     pub h: Handle,
     /// what each channel id issued, in order (channel ids may be reused: one
     /// entry per incarnation, in order of opening)
@@ -137,7 +139,7 @@ fn m(n: &str, id: &str) -> Item {
 
 /// Execute `prog` over a mock with fragmentation `frag`. Run-time rule
 /// violations (no progress, failed operations, panics) go to `res`.
-pub fn execute(prog: &Prog, frag: &Frag, jitter: Option<Rng>, hr: Rng, res: &mut CaseResult) -> Option<RunOut> {
+pub fn execute(prog: &Prog, frag: &Frag, jitter: Option<Rng>, hr: Rng, server_close_after: Option<(usize, usize)>, res: &mut CaseResult) -> Option<RunOut> {
     let mut reflex = Reflex::default();
     reflex.tune = (2047, prog.frame_max, 0);
     let (mock, h) = new_mock(reflex);
@@ -201,6 +203,22 @@ pub fn execute(prog: &Prog, frag: &Frag, jitter: Option<Rng>, hr: Rng, res: &mut
         }
     };
 
+    let chaos = server_close_after.is_some();
+    let chaos_task = server_close_after.map(|(after, budget)| {
+        let h2 = h.clone();
+        run::spawn("server-close", move || {
+            // once enough has been written, let the transport accept only `budget` more
+            // bytes (so that it stalls in the middle of a frame), then close from the
+            // server side while the client is stalled, then let everything drain
+            h2.wait(Duration::from_secs(5), |st| st.out.len() >= after || st.released);
+            h2.with(|st| st.budget = budget);
+            let hits = h2.peek(|st| st.stall_hits);
+            h2.wait(Duration::from_millis(300), |st| st.stall_hits > hits || st.released);
+            h2.inject(crate::reflex::conn_close_frame(320, "chaos"));
+            std::thread::sleep(Duration::from_micros(500));
+            h2.grant(usize::MAX);
+        })
+    });
     let mut expected: BTreeMap<u16, Vec<Item>> = BTreeMap::new();
     let mut all_ok = true;
     // open every channel up front on the connection thread
@@ -217,7 +235,9 @@ pub fn execute(prog: &Prog, frag: &Frag, jitter: Option<Rng>, hr: Rng, res: &mut
                     v.push((ch, ops_.clone()));
                 }
                 Err(e) => {
-                    res.violate("op_failed", format!("open_channel: {}", ek(&e)));
+                    if !chaos {
+                        res.violate("op_failed", format!("open_channel: {}", ek(&e)));
+                    }
                     all_ok = false;
                 }
             }
@@ -268,12 +288,16 @@ pub fn execute(prog: &Prog, frag: &Frag, jitter: Option<Rng>, hr: Rng, res: &mut
                 extra_issued.push((id, vec![m("Channel.Open", "")]));
                 extra_issued.push((id, vec![m("Channel.Close", "")]));
                 if let Err(e) = ch.close() {
-                    res.violate("op_failed", format!("extra channel close: {}", ek(&e)));
+                    if !chaos {
+                        res.violate("op_failed", format!("extra channel close: {}", ek(&e)));
+                    }
                     all_ok = false;
                 }
             }
             Err(e) => {
-                res.violate("op_failed", format!("open_channel(extra): {}", ek(&e)));
+                if !chaos {
+                    res.violate("op_failed", format!("open_channel(extra): {}", ek(&e)));
+                }
                 all_ok = false;
             }
         }
@@ -285,7 +309,9 @@ pub fn execute(prog: &Prog, frag: &Frag, jitter: Option<Rng>, hr: Rng, res: &mut
                     expected.entry(id).or_default().extend(items);
                 }
                 for e in errs {
-                    res.violate("op_failed", e);
+                    if !chaos {
+                        res.violate("op_failed", e);
+                    }
                     all_ok = false;
                 }
             }
@@ -314,11 +340,15 @@ pub fn execute(prog: &Prog, frag: &Frag, jitter: Option<Rng>, hr: Rng, res: &mut
     for (id, items) in extra_issued {
         expected.entry(id).or_default().extend(items);
     }
+    if let Some(t) = &chaos_task {
+        let _ = t.join(W);
+    }
     let close = run::spawn("close", move || conn.close());
     match close.join(W) {
-        J::Done(Ok(())) => {}
-        J::Done(Err(e)) => {
-            res.violate("op_failed", format!("Connection::close: {}", ek(&e)));
+        J::Done(Ok(())) if !chaos => {}
+        J::Done(Err(e)) if chaos && ek(&e) == "ServerClosedConnection(320,\"chaos\")" => {}
+        J::Done(r) => {
+            res.violate("op_failed", format!("Connection::close: {}", session::rk(&r)));
             all_ok = false;
         }
         _ => {
@@ -327,8 +357,12 @@ pub fn execute(prog: &Prog, frag: &Frag, jitter: Option<Rng>, hr: Rng, res: &mut
             return None;
         }
     }
+    if chaos {
+        all_ok = false;
+    }
     finish(res);
     Some(RunOut {
+        server_closed: chaos,
         h,
         expected,
         all_closed_ok: all_ok,
@@ -342,11 +376,11 @@ pub fn check_stream(out: &RunOut, frame_max: u32, res: &mut CaseResult) {
     let (writes, wbs) = out.h.peek(|st| (st.writes.len(), st.wouldblocks));
     res.obs("transport_writes", writes as u64);
     res.obs("would_blocks", wbs as u64);
-    check_bytes(&bytes, &out.expected, out.all_closed_ok, frame_max, res);
+    check_bytes(&bytes, &out.expected, out.all_closed_ok, out.server_closed, frame_max, res);
 }
 
 /// The oracle proper, over any recording of what the peer end received.
-pub fn check_bytes(bytes: &[u8], expected: &BTreeMap<u16, Vec<Item>>, all_closed_ok: bool, frame_max: u32, res: &mut CaseResult) {
+pub fn check_bytes(bytes: &[u8], expected: &BTreeMap<u16, Vec<Item>>, all_closed_ok: bool, server_closed: bool, frame_max: u32, res: &mut CaseResult) {
     struct O<'a> {
         expected: &'a BTreeMap<u16, Vec<Item>>,
         all_closed_ok: bool,
@@ -392,7 +426,7 @@ pub fn check_bytes(bytes: &[u8], expected: &BTreeMap<u16, Vec<Item>>, all_closed
         "Connection.StartOk",
         "Connection.TuneOk",
         "Connection.Open",
-        "Connection.Close",
+        if server_closed { "Connection.CloseOk" } else { "Connection.Close" },
     ];
     if ch0 != want0 {
         res.violate("channel0_sequence", format!("got {:?}, want {:?}", ch0, want0));
@@ -418,7 +452,11 @@ pub fn check_bytes(bytes: &[u8], expected: &BTreeMap<u16, Vec<Item>>, all_closed
         let got = ops::wire_items(&sp.frames, ch);
         let empty = Vec::new();
         let want = out.expected.get(&ch).unwrap_or(&empty);
-        let ok = if out.all_closed_ok {
+        let ok = if server_closed && want.is_empty() && got == vec![m("Channel.Open", "")] {
+            // an open_channel that was cut off by the server's close: the caller got an
+            // error (and no channel id), its Channel.Open may already be on the wire
+            true
+        } else if out.all_closed_ok {
             &got == want
         } else {
             got.len() <= want.len() && got[..] == want[..got.len()]
@@ -550,7 +588,7 @@ pub fn execute_tcp(prog: &Prog, r: &mut Rng, slow: bool, res: &mut CaseResult) {
     broker.wait(W, |s| s.reflex.got_conn_close || s.closed);
     let bytes = broker.with(|s| s.out.clone());
     res.obs("tcp_sessions", 1);
-    check_bytes(&bytes, &expected, all_ok, prog.frame_max, res);
+    check_bytes(&bytes, &expected, all_ok, false, prog.frame_max, res);
     for p in run::io_panics(&run::take_panics()) {
         res.violate("io_thread_panic", format!("{} at {}", p.msg, p.loc));
     }
@@ -580,14 +618,14 @@ pub fn reference_prog() -> Prog {
     }
 }
 
-fn run_case(rc: &mut RunCtx, id: String, prog: &Prog, frag: &Frag, jitter: Option<Rng>, hr: Rng, sample: bool) {
+fn run_case(rc: &mut RunCtx, id: String, prog: &Prog, frag: &Frag, jitter: Option<Rng>, hr: Rng, sample: bool, server_close_after: Option<(usize, usize)>) {
     rc.begin(&id);
     let mut res = CaseResult::new(id);
     crate::hooks::set_recording(true);
     let nops: usize = prog.threads.iter().flatten().map(|o| o.len()).sum();
     res.obs("ops", nops as u64);
     res.obs("threads", prog.threads.len() as u64);
-    if let Some(out) = execute(prog, frag, jitter, hr, &mut res) {
+    if let Some(out) = execute(prog, frag, jitter, hr, server_close_after, &mut res) {
         check_stream(&out, prog.frame_max, &mut res);
         if let Some(t) = out.h.peek(|st| st.io_thread) {
             for shape in crate::hooks::batch_shapes(t) {
@@ -628,7 +666,7 @@ pub fn run(rc: &mut RunCtx) {
     // measure the session length once (shard 0 reports it)
     let total = {
         let mut tmp = CaseResult::new("measure");
-        let out = execute(&refp, &Frag::Budget(vec![usize::MAX]), None, Rng::new(1), &mut tmp);
+        let out = execute(&refp, &Frag::Budget(vec![usize::MAX]), None, Rng::new(1), None, &mut tmp);
         out.map(|o| o.h.out_len()).unwrap_or(0)
     };
     if total == 0 {
@@ -652,7 +690,7 @@ pub fn run(rc: &mut RunCtx) {
     for k in offsets {
         let id = format!("wb1:off={}", k);
         if rc.mine(&id) {
-            run_case(rc, id, &refp, &Frag::Budget(vec![k]), None, Rng::new(k as u64), k % 97 == 0);
+            run_case(rc, id, &refp, &Frag::Budget(vec![k]), None, Rng::new(k as u64), k % 97 == 0, None);
         }
     }
     // (2) two would-blocks
@@ -663,7 +701,7 @@ pub fn run(rc: &mut RunCtx) {
         let k2 = r.usize(1, (total.max(2) - k1).max(1));
         let id = format!("wb2:{}+{}", k1, k2);
         if rc.mine(&id) {
-            run_case(rc, id, &refp, &Frag::Budget(vec![k1, k2]), None, Rng::new(i), i % 50 == 0);
+            run_case(rc, id, &refp, &Frag::Budget(vec![k1, k2]), None, Rng::new(i), i % 50 == 0, None);
         }
     }
     // (3) one byte per write
@@ -681,6 +719,7 @@ pub fn run(rc: &mut RunCtx) {
                 None,
                 Rng::new(3),
                 true,
+                None,
             );
         }
     }
@@ -717,7 +756,10 @@ pub fn run(rc: &mut RunCtx) {
             let frag = gen_frag(&mut r);
             let jitter = if r.bool() { Some(Rng::new(r.next())) } else { None };
             let hr = Rng::new(r.next());
-            run_case(rc, id, &prog, &frag, jitter, hr, i % 200 == 0);
+            // in a sixth of the runs the server closes the connection while the transport is
+            // stalled in the middle of a frame
+            let chaos = if i % 6 == 5 { Some((r.usize(200, 6000), r.usize(1, 60))) } else { None };
+            run_case(rc, id, &prog, &frag, jitter, hr, i % 200 == 0, chaos);
         }
     }
 }
